@@ -732,7 +732,15 @@ func (r *defRunner[C]) runAll(t *testing.T) {
 
 	// 2. generated part
 	if r.d.Gen != nil && os.Getenv("VERIF_NO_RAPID") == "" {
-		rapid.Check(t, func(rt *rapid.T) {
+		var tb rapid.TB = t
+		if os.Getenv("VERIF_RACE") != "" {
+			// under the race detector testing.T.Failed() turns true as soon as ANY race was reported (the listed
+			// read-site finding is reported within the first few cases) and rapid then refuses to go on: the
+			// campaign would end there. The wrapper only counts failures this harness raised itself; the
+			// detector's reports are collected from its log and keyed by the driver.
+			tb = &raceBlindTB{T: t}
+		}
+		rapid.Check(tb, func(rt *rapid.T) {
 			c := r.d.Gen(rt, tier)
 			trackCurrent(r.d.ID, c)
 			st, err := safeRun(r.d.Run, c)
@@ -742,6 +750,20 @@ func (r *defRunner[C]) runAll(t *testing.T) {
 		})
 	}
 }
+
+// raceBlindTB: a testing.T whose Failed() reports only what was failed through it.
+type raceBlindTB struct {
+	*testing.T
+	failed bool
+}
+
+func (r *raceBlindTB) Failed() bool                 { return r.failed }
+func (r *raceBlindTB) Fail()                        { r.failed = true; r.T.Fail() }
+func (r *raceBlindTB) FailNow()                     { r.failed = true; r.T.FailNow() }
+func (r *raceBlindTB) Error(args ...any)            { r.failed = true; r.T.Error(args...) }
+func (r *raceBlindTB) Errorf(f string, args ...any) { r.failed = true; r.T.Errorf(f, args...) }
+func (r *raceBlindTB) Fatal(args ...any)            { r.failed = true; r.T.Fatal(args...) }
+func (r *raceBlindTB) Fatalf(f string, args ...any) { r.failed = true; r.T.Fatalf(f, args...) }
 
 func (r *defRunner[C]) replay(raw []byte) error {
 	r.armLockWatch()
